@@ -35,7 +35,7 @@ RULE = ('A history is a sequence over {save_spike_clusters(random merge/split/re
 EXHAUSTIVE = {'quick': True, 'thorough': True}
 EXHAUSTIVE_SCOPE = {'quick': 'histories of length <= 2 over the 9-operation reduced alphabet; random part sampled',
                     'thorough': 'histories of length <= 3 over the reduced alphabet; random part sampled'}
-FLOORS = {'quick': {'evaluations': 230, 'distinct_nontrivial': 80},
+FLOORS = {'quick': {'evaluations': 650, 'distinct_nontrivial': 250},
           'thorough': {'evaluations': 5000, 'distinct_nontrivial': 2000}}
 ASSUMPTIONS = ['foreign files never reuse a saved field name (glob order would decide); empty-string and '
                'numeric-looking string values are not generated (the TSV layer cannot represent them)',
@@ -48,7 +48,7 @@ REDUCED = [('clusters', 1), ('clusters', 2), ('meta', 'group', 1), ('meta', 'gro
 
 
 def plan(tier, seed):
-    L, nr = (2, 150) if tier == 'quick' else (3, 5000)
+    L, nr = (2, 600) if tier == 'quick' else (3, 5000)
     return [{'shard': i, 'n': NSHARDS, 'seed': seed, 'L': L, 'nrand': nr // NSHARDS + 1} for i in range(NSHARDS)]
 
 
@@ -121,8 +121,6 @@ def _run(case, ctx, d):
                 ns=int(rng.integers(8, 40)), nt=int(rng.integers(2, 5)), nc=int(rng.integers(3, 7)), nsw=int(rng.integers(3, 6)),
                 clusters=['same', 'absent', 'curated'][int(rng.integers(0, 3))], raw_parts=int(rng.integers(1, 3)),
                 dtype_times=['uint64', 'int64'][int(rng.integers(0, 2))])
-    if opts['names'] == 'alf' and opts['clusters'] == 'absent':
-        opts['clusters'] = 'same'      # save_spike_clusters needs an ALF-named cluster file to exist there
     spec = random_spec(rng, **opts)
     ops = case['ops'] if case['ops'] is not None else rand_ops(rng)
     ops = [list(o) for o in ops] + [['reload']]
